@@ -5,23 +5,52 @@ import os, json, random
 from . import common as C
 
 
+CHUNK = 300000
+
+
 def validate(out, module, obsfile, name, classify, workers=8, timeout=3600, count_traces=True):
     """Run TLC on spec/trace/<module> with OBS=<obsfile>.  `classify(rec, verdict)` turns a rejected
-    record into the structured classification used for known-finding matching."""
+    record into the structured classification used for known-finding matching.  Files with more than CHUNK
+    records are validated in pieces (TLC holds the whole deserialised file in memory)."""
     n = C.count_lines(obsfile)
-    r = C.tlc(module, module + ".cfg", "trace", name, workers=workers, env_extra={"OBS": obsfile}, timeout=timeout)
-    if not r.completed:
-        import sys
-        sys.stderr.write(r.out[-4000:])
-        raise C.ToolError("TLC did not complete on %s: %s" % (module, r.error))
-    out.add_tlc(r)
+    viols = []
+    if n <= CHUNK:
+        pieces = [(obsfile, 0)]
+    else:
+        pieces = []
+        with open(obsfile) as f:
+            k, fh = 0, None
+            for i, line in enumerate(f):
+                if i % CHUNK == 0:
+                    if fh:
+                        fh.close()
+                    pth = "%s.part%d" % (obsfile, k)
+                    fh = open(pth, "w")
+                    pieces.append((pth, i))
+                    k += 1
+                fh.write(line)
+            if fh:
+                fh.close()
+    last = None
+    for pi, (pth, off) in enumerate(pieces):
+        r = C.tlc(module, module + ".cfg", "trace", name if len(pieces) == 1 else "%s-p%d" % (name, pi), workers=workers, env_extra={"OBS": pth}, timeout=timeout)
+        if not r.completed:
+            import sys
+            sys.stderr.write(r.out[-4000:])
+            raise C.ToolError("TLC did not complete on %s: %s" % (module, r.error))
+        out.add_tlc(r)
+        viols += [(v[0] + off, v[1], v[2]) for v in r.viols]
+        last = r
+        if pth != obsfile:
+            os.remove(pth)
+    r = last
     if count_traces:
         out.traces += n
     out.evaluations += n
-    recs = C.lines_of(obsfile, [v[0] for v in r.viols])
-    _rejected[obsfile] = set(v[0] for v in r.viols)
+    recs = C.lines_of(obsfile, [v[0] for v in viols])
+    _rejected[obsfile] = set(v[0] for v in viols)
     bad = 0
-    for idx, verdict, _ in r.viols:
+    for idx, verdict, _ in viols:
         rec = recs.get(idx)
         cls = classify(rec, verdict)
         if out.violation(cls, {"record_index": idx, "verdict": verdict, "record": rec}):
